@@ -112,6 +112,6 @@ def execute(cases_, tier, seed):
     res.samples = [{"id": wc.id, "settings": wc.settings, "doc": wc.placed["doc"]} for wc in wcs[:: max(1, len(wcs) // 4)]][:4]
     res.bound = "tier=%s: depth-2 space%s x %d settings" % (tier, "" if tier == "quick" else " + pairs", 2 if tier == "quick" else 4)
     res.assumptions = ["module compile errors other than E0204/E0277/E0369 are C01's business"]
-    if len(cases_) > 20 and (n_types < 200 or n_ext < 20):
+    if not res.violations and (len(cases_) > 20 and (n_types < 200 or n_ext < 20)):   # a subject that breaks everything is reported through its violations, not as vacuity
         raise MachineryError("vacuity guard: types=%d extended=%d" % (n_types, n_ext))
     return res
